@@ -119,6 +119,31 @@ check(
     "DESIGN.md sections 3 (E1) and 4 C04", engine="E1 sched",
 )
 
+check(
+    "C09", "exploration",
+    "Controlled backend plus an instrumented input iterator (items handed out, thread currently inside, optional pause): "
+    "generated configurations x input lengths up to 3x the bound x schedules with threads held inside the iterator / "
+    "compute_batch_size / submit / retrieve hooks while other batches complete or fail, plus failures and closes.  Invariants "
+    "over the event trace: exact lazy initial burst, pulled - done <= (P+2n)*b independent of N, batches in flight <= "
+    "pre_dispatch, no re-entrant iteration, no pull after a registered failure / close.  eval_expr is compared with Python "
+    "arithmetic on generated expressions.",
+    E1_NOTE + "  The look-ahead bound is deliberately loose.",
+    "Hypothesis generated schedules on a harness-owned backend and iterator; trace invariants; differential oracle for eval_expr",
+    "DESIGN.md sections 3 (E1) and 4 C09", engine="E1 sched",
+)
+
+check(
+    "C16", "exploration",
+    "Controlled backend with return_as generator / generator_unordered: the drawn schedule interleaves batch completions "
+    "with consumer actions (next, close, drop, overlapping call, exhaust) executed in the caller thread.  Promptness is decided "
+    "by issuing next() when its result and all earlier ones are complete and requiring it to return before any further "
+    "completion is issued; unordered delivery is compared with the completion order; abandonment must return, stop "
+    "dispatching and leave the object reusable; overlapping calls must raise RuntimeError.",
+    E1_NOTE,
+    "Hypothesis generated histories (completions x consumer actions) on a harness-owned backend; model oracle for order/promptness/exactly-once",
+    "DESIGN.md sections 3 (E1) and 4 C16", engine="E1 sched",
+)
+
 NOT_YET = "check not built yet in this session (work in progress; see DESIGN.md section 4 for the planned generator and oracle)"
 
 
